@@ -45,7 +45,17 @@ struct Case {
     /// the same statement restricted to the rows before the failing one (None: rows come from a
     /// MATCH whose order is the engine's)
     prefix_stmt: Option<Query>,
+    /// raw statement text (overrides `stmt`) for shapes outside the little AST
+    text: Option<String>,
+    /// the statement has one row only: whatever it leaves is a half-built row, not earlier rows
+    single_row: bool,
 }
+impl Case {
+    fn text(&self) -> String {
+        self.text.clone().unwrap_or_else(|| self.stmt.print())
+    }
+}
+const MU_KEYS: usize = 6;
 
 fn start_graph(name: &str) -> RefGraph {
     let mut g = RefGraph::new();
@@ -67,6 +77,23 @@ fn start_graph(name: &str) -> RefGraph {
             g.add_node(&["U"], &[("k", LV::Int(1))]);
             g.add_node(&["U"], &[("k", LV::Int(2))]);
             g.add_node(&["U"], &[("k", LV::Int(3))]);
+        }
+        "MULTI_UNIQUE" => {
+            // node 1 holds 100..105 under :W; node 2 is a second :W node with 200..205; node 3+i is a
+            // :T node whose value for key k<i> equals node 1's and whose other values are fresh
+            let keys: Vec<String> = (0..MU_KEYS).map(|j| format!("k{j}")).collect();
+            let mk = |g: &mut RefGraph, label: &str, tag: i64, f: &dyn Fn(usize) -> i64| {
+                let mut props: Vec<(&str, LV)> = vec![("tag", LV::Int(tag))];
+                for (j, k) in keys.iter().enumerate() {
+                    props.push((k.as_str(), LV::Int(f(j))));
+                }
+                g.add_node(&[label], &props);
+            };
+            mk(&mut g, "W", 100, &|j| 100 + j as i64);
+            mk(&mut g, "W", 200, &|j| 200 + j as i64);
+            for i in 0..MU_KEYS {
+                mk(&mut g, "T", i as i64, &|j| if j == i { 100 + j as i64 } else { 1000 * (i as i64 + 1) + j as i64 });
+            }
         }
         _ => panic!("unknown start graph"),
     }
@@ -99,7 +126,7 @@ fn cases(max_rows: usize) -> Vec<Case> {
             ] {
                 for start in starts {
                     for setup in [vec![], vec!["CREATE INDEX ON :A(p)"], vec!["CREATE INDEX ON :A(q)"]] {
-                        out.push(Case { template: tmpl, vals: vals.clone(), fail_at, setup: setup.clone(), start, stmt: mk(&vals, tmpl), prefix_stmt: Some(mk(&vals[..fail_at], tmpl)) });
+                        out.push(Case { template: tmpl, vals: vals.clone(), fail_at, setup: setup.clone(), start, stmt: mk(&vals, tmpl), prefix_stmt: Some(mk(&vals[..fail_at], tmpl)), text: None, single_row: false });
                     }
                 }
             }
@@ -117,7 +144,7 @@ fn cases(max_rows: usize) -> Vec<Case> {
                 };
                 vals[fail_at] = dup;
                 let mk = |vals: &[i64]| Query::new(vec![unwind(vals, "x"), Clause::Create(vec![pp(n("n").l("U").p("k", var("x")))])]);
-                out.push(Case { template: "unwind_create_unique", vals: vals.clone(), fail_at, setup: vec!["CREATE CONSTRAINT ON (n:U) ASSERT n.k IS UNIQUE"], start, stmt: mk(&vals), prefix_stmt: Some(mk(&vals[..fail_at])) });
+                out.push(Case { template: "unwind_create_unique", vals: vals.clone(), fail_at, setup: vec!["CREATE CONSTRAINT ON (n:U) ASSERT n.k IS UNIQUE"], start, stmt: mk(&vals), prefix_stmt: Some(mk(&vals[..fail_at])), text: None, single_row: false });
             }
         }
     }
@@ -125,13 +152,39 @@ fn cases(max_rows: usize) -> Vec<Case> {
     let set_div = Query::new(vec![Clause::Match { optional: false, pats: vec![pp(n("n").l("A"))], where_: None }, Clause::Set(vec![SetItem::Prop("n".into(), "q".into(), div(lit_i(10), prop("n", "p")))])]);
     for start in ["A1_A0_A2", "A0_A1"] {
         for setup in [vec![], vec!["CREATE INDEX ON :A(q)"]] {
-            out.push(Case { template: "match_set_div", vals: vec![], fail_at: 0, setup: setup.clone(), start, stmt: set_div.clone(), prefix_stmt: None });
+            out.push(Case { template: "match_set_div", vals: vec![], fail_at: 0, setup: setup.clone(), start, stmt: set_div.clone(), prefix_stmt: None, text: None, single_row: false });
         }
     }
     let set_same = Query::new(vec![Clause::Match { optional: false, pats: vec![pp(n("n").l("U"))], where_: None }, Clause::Set(vec![SetItem::Prop("n".into(), "k".into(), lit_i(9))])]);
-    out.push(Case { template: "match_set_unique", vals: vec![], fail_at: 0, setup: vec!["CREATE CONSTRAINT ON (n:U) ASSERT n.k IS UNIQUE"], start: "U1_U2_U3", stmt: set_same, prefix_stmt: None });
+    out.push(Case { template: "match_set_unique", vals: vec![], fail_at: 0, setup: vec!["CREATE CONSTRAINT ON (n:U) ASSERT n.k IS UNIQUE"], start: "U1_U2_U3", stmt: set_same, prefix_stmt: None, text: None, single_row: false });
     let create_edge_div = Query::new(vec![Clause::Match { optional: false, pats: vec![pp(n("a").l("A")), pp(n("b").l("A"))], where_: None }, Clause::Create(vec![pp(n("a")).step(RelPat::new(Dir::Out).t("R").p("w", div(lit_i(10), prop("b", "p"))), n("b"))])]);
-    out.push(Case { template: "match_create_edge_div", vals: vec![], fail_at: 0, setup: vec![], start: "A0_A1", stmt: create_edge_div, prefix_stmt: None });
+    out.push(Case { template: "match_create_edge_div", vals: vec![], fail_at: 0, setup: vec![], start: "A0_A1", stmt: create_edge_div, prefix_stmt: None, text: None, single_row: false });
+    // --- a label with several unique constraints: the statement collides on exactly one key (every
+    // key in turn) while its other values are fresh; nothing of the refused write may stay reserved
+    let mu_setup: Vec<&'static str> = vec![
+        "CREATE CONSTRAINT ON (n:W) ASSERT n.k0 IS UNIQUE",
+        "CREATE CONSTRAINT ON (n:W) ASSERT n.k1 IS UNIQUE",
+        "CREATE CONSTRAINT ON (n:W) ASSERT n.k2 IS UNIQUE",
+        "CREATE CONSTRAINT ON (n:W) ASSERT n.k3 IS UNIQUE",
+        "CREATE CONSTRAINT ON (n:W) ASSERT n.k4 IS UNIQUE",
+        "CREATE CONSTRAINT ON (n:W) ASSERT n.k5 IS UNIQUE",
+    ];
+    let dummy = Query::new(vec![]);
+    let mut mu = |template: &'static str, text: String| {
+        out.push(Case { template, vals: vec![], fail_at: 0, setup: mu_setup.clone(), start: "MULTI_UNIQUE", stmt: dummy.clone(), prefix_stmt: None, single_row: template != "multi_unique_set_label_all_rows", text: Some(text) });
+    };
+    for i in 0..MU_KEYS {
+        let map = |base: i64| (0..MU_KEYS).map(|j| format!("k{j}: {}", if j == i { 100 + j as i64 } else { base + j as i64 })).collect::<Vec<_>>().join(", ");
+        mu("multi_unique_set_label", format!("MATCH (n:T {{tag: {i}}}) SET n:W"));
+        mu("multi_unique_set_labels", format!("MATCH (n:T {{tag: {i}}}) SET n:X:W"));
+        mu("multi_unique_create", format!("CREATE (:W {{{}}})", map(300)));
+        mu("multi_unique_create_path", format!("CREATE (:X {{p: 1}})-[:R]->(:W {{{}}})", map(300)));
+        mu("multi_unique_merge", format!("MERGE (n:W {{{}}})", map(300)));
+        mu("multi_unique_set_map_add", format!("MATCH (n:W {{tag: 200}}) SET n += {{{}}}", map(300)));
+        mu("multi_unique_set_map_replace", format!("MATCH (n:W {{tag: 200}}) SET n = {{{}}}", map(300)));
+        mu("multi_unique_set_props", format!("MATCH (n:W {{tag: 200}}) SET {}", (0..MU_KEYS).map(|j| format!("n.k{j} = {}", if j == i { 100 + j as i64 } else { 300 + j as i64 })).collect::<Vec<_>>().join(", ")));
+    }
+    mu("multi_unique_set_label_all_rows", "MATCH (n:T) SET n:W".to_string());
     out
 }
 
@@ -141,6 +194,28 @@ struct FullState {
     graph: RefGraph,
     lookups: Vec<(String, Vec<Vec<LV>>)>,
     constraints: Vec<(String, String)>,
+    /// who holds each probed value under each unique constraint (the constraint index itself)
+    holders: Vec<(String, String, i64, Option<u64>)>,
+}
+fn implied_holders(g: &RefGraph, constraints: &[(String, String)]) -> Vec<(String, String, i64, Option<u64>)> {
+    let mut out = vec![];
+    for (l, k) in constraints {
+        for v in value_domain() {
+            let h = g.nodes.iter().find(|(_, n)| n.labels.contains(l) && n.props.get(k) == Some(&LV::Int(v))).map(|(id, _)| *id);
+            out.push((l.clone(), k.clone(), v, h));
+        }
+    }
+    out
+}
+fn value_domain() -> Vec<i64> {
+    let mut d: Vec<i64> = (0..=10).collect();
+    for base in [100i64, 200, 300] {
+        d.extend(base..base + 8);
+    }
+    for i in 1..=(MU_KEYS as i64 + 1) {
+        d.extend(1000 * i..1000 * i + 8);
+    }
+    d
 }
 fn full_state(store: &GraphStore) -> FullState {
     let graph = dump(store);
@@ -157,7 +232,14 @@ fn full_state(store: &GraphStore) -> FullState {
     }
     let mut constraints: Vec<(String, String)> = store.property_index.list_constraints().into_iter().map(|(l, p)| (l.as_str().to_string(), p)).collect();
     constraints.sort();
-    FullState { graph, lookups, constraints }
+    let mut holders = vec![];
+    for (l, k) in &constraints {
+        for v in value_domain() {
+            let h = store.property_index.unique_constraint_holder(&samyama::graph::Label::new(l.as_str()), k, &samyama::graph::PropertyValue::Integer(v));
+            holders.push((l.clone(), k.clone(), v, h.map(|n| n.as_u64())));
+        }
+    }
+    FullState { graph, lookups, constraints, holders }
 }
 /// Behavioural probes (run on a scratch store): which constrained values are still free.
 fn probes(store: &mut GraphStore) -> Vec<(i64, bool)> {
@@ -195,7 +277,7 @@ fn silence_stderr() {
 }
 
 fn run_case(ctx: &svmc::Ctx, c: &Case, verbose: bool) -> (&'static str, bool) {
-    let text = c.stmt.print();
+    let text = c.text();
     let witness = json!({"template": c.template, "start": c.start, "setup": c.setup, "statement": text, "fail_at_row": c.fail_at + 1, "rows": c.vals});
     let mut store = match prepare(c) {
         Ok(s) => s,
@@ -224,36 +306,47 @@ fn run_case(ctx: &svmc::Ctx, c: &Case, verbose: bool) -> (&'static str, bool) {
             if verbose {
                 println!("before: {}\nafter : {}", pre.graph.describe(), post.graph.describe());
             }
-            let mut aspect = "";
-            let mut what = String::new();
-            if post.graph != pre.graph {
-                aspect = "graph";
-                what = format!("graph before [{}], after the failed statement [{}]", pre.graph.describe(), post.graph.describe());
-            } else if post.lookups != pre.lookups {
-                aspect = "index_lookups";
-                what = "index-backed lookups differ after the failed statement".to_string();
-            } else if post.constraints != pre.constraints {
-                aspect = "constraint_list";
-                what = format!("constraint list differs: {:?} vs {:?}", pre.constraints, post.constraints);
-            } else {
+            let mut aspects: Vec<(&str, String)> = vec![];
+            let graph_same = post.graph == pre.graph;
+            if !graph_same {
+                aspects.push(("graph", format!("graph before [{}], after the failed statement [{}]", pre.graph.describe(), post.graph.describe())));
+            }
+            // the unique-constraint index must be what the graph after the statement implies (which,
+            // for an unchanged graph, is what it was before)
+            let implied = implied_holders(&post.graph, &post.constraints);
+            if post.holders != implied {
+                let diff: Vec<String> = implied.iter().zip(post.holders.iter()).filter(|(a, b)| a != b).take(4).map(|(a, b)| format!(":{}({})={} is held by {:?}, the graph says {:?}", a.0, a.1, a.2, b.3, a.3)).collect();
+                aspects.push(("constraint_index", format!("the unique-constraint index holds reservations the graph does not back: {}", diff.join("; "))));
+            }
+            if post.constraints != pre.constraints {
+                aspects.push(("constraint_list", format!("constraint list differs: {:?} vs {:?}", pre.constraints, post.constraints)));
+            }
+            if graph_same {
+                if post.lookups != pre.lookups {
+                    aspects.push(("index_lookups", "index-backed lookups differ after the failed statement".to_string()));
+                }
+                if post.holders != pre.holders && post.holders == implied {
+                    aspects.push(("constraint_index", "the unique-constraint index differs after the failed statement".to_string()));
+                }
                 // behaviour of the constraint index: probe on scratch copies
                 let mut a = prepare(c).unwrap();
                 let pa = probes(&mut a);
                 let pb = probes(&mut store);
                 if pa != pb {
-                    aspect = "constraint_behaviour";
-                    what = format!("constraint behaviour differs after the failed statement: before {pa:?}, after {pb:?}");
+                    aspects.push(("constraint_behaviour", format!("constraint behaviour differs after the failed statement: before {pa:?}, after {pb:?}")));
                 }
             }
-            if aspect.is_empty() {
+            if aspects.is_empty() {
                 return ("err_unchanged", true);
             }
             // region: were there rows before the failing one (statement streams its writes) or did
             // the failing row itself leave what it had already built
-            let rows_before = if c.prefix_stmt.is_some() { c.fail_at >= 1 } else { true };
-            let sig = format!("{}:{}:{aspect}", if rows_before { "stream" } else { "partial_row" }, c.template);
+            let rows_before = if c.single_row { false } else if c.prefix_stmt.is_some() { c.fail_at >= 1 } else { true };
             let _ = isomorphic;
-            ctx.violation(&sig, format!("{text} on [{}] (setup {:?}) returned an error but {what}", start_graph(c.start).describe(), c.setup), witness);
+            for (aspect, what) in aspects {
+                let sig = format!("{}:{}:{aspect}", if rows_before { "stream" } else { "partial_row" }, c.template);
+                ctx.violation(&sig, format!("{text} on [{}] (setup {:?}) returned an error but {what}", start_graph(c.start).describe(), c.setup), witness.clone());
+            }
             ("err_changed", true)
         }
     }
@@ -268,7 +361,7 @@ fn main() {
             let doc: serde_json::Value = serde_json::from_str(&std::fs::read_to_string(p).expect("read")).expect("json");
             let w = &doc["witness"];
             let all = cases(4);
-            match all.iter().find(|c| c.stmt.print() == w["statement"].as_str().unwrap() && c.start == w["start"].as_str().unwrap() && json!(c.setup) == w["setup"]) {
+            match all.iter().find(|c| c.text() == w["statement"].as_str().unwrap() && c.start == w["start"].as_str().unwrap() && json!(c.setup) == w["setup"]) {
                 Some(c) => {
                     run_case(ctx, c, true);
                 }
@@ -293,7 +386,7 @@ fn main() {
         ctx.cov("exhaustive", true);
         ctx.cov("bounds", format!("n <= {max_rows} rows, failure at every position k <= n; templates: unwind_create_div, unwind_create_path_div, unwind_merge_set_div, unwind_match_set_div, unwind_create_unique, match_set_div, match_set_unique, match_create_edge_div"));
         for c in cs.iter().step_by((cs.len() / 4).max(1)).take(4) {
-            ctx.sample(json!({"template": c.template, "statement": c.stmt.print(), "start": c.start, "setup": c.setup, "fail_at_row": c.fail_at + 1}));
+            ctx.sample(json!({"template": c.template, "statement": c.text(), "start": c.start, "setup": c.setup, "fail_at_row": c.fail_at + 1}));
         }
         ctx.assume("a statement that returns Ok is not judged here (C04 judges effects); state = full dump with ids, index-backed lookups for every probed value, constraint list, and constraint behaviour probed on scratch copies");
     });
